@@ -290,6 +290,9 @@ func (ref *FileEnt) Read(ctx context.Context, p []byte,
 	defer ref.Unlock()
 
 	n := int64(len(ref.Data))
+	if offset < 0 { // offsets >= 2^63 on the wire
+		return 0, p9p.ErrBadoffset
+	}
 	if offset > n {
 		return 0, io.EOF
 	}
@@ -311,6 +314,9 @@ func (ref *FileEnt) Write(ctx context.Context, p []byte,
 	defer ref.Unlock()
 
 	n := int64(len(ref.Data))
+	if offset < 0 { // offsets >= 2^63 on the wire
+		return 0, p9p.ErrBadoffset
+	}
 	if offset > n {
 		return 0, p9p.MessageRerror{Ename: "invalid address"}
 	}
